@@ -37,6 +37,7 @@ type feResult struct {
 	classes int
 	tracked []string
 	noRef   bool
+	superset bool
 }
 
 func (r feResult) label() string {
@@ -46,6 +47,9 @@ func (r feResult) label() string {
 	}
 	if r.noRef {
 		n += "[alone]"
+	}
+	if r.superset {
+		n += "[superset]"
 	}
 	return n
 }
@@ -77,13 +81,14 @@ func subsumedBy(b, a *State) bool {
 	return true
 }
 
-func exploreOne(prog *Program, spec feSpec, multi bool, workers int, noRef bool) feResult {
+func exploreOne(prog *Program, spec feSpec, multi bool, workers int, noRef bool, noEvents ...bool) feResult {
 	res := feResult{spec: spec, multi: multi, name: spec.rel + "." + spec.typ}
 	m, err := ExtractMachine(prog, spec.rel, spec.typ, spec.roots)
 	if err != nil {
 		res.err = err
 		return res
 	}
+	m.in.precisePrev = len(noEvents) > 0 && noEvents[0]
 	for f := range m.in.tracked {
 		res.tracked = append(res.tracked, f)
 	}
@@ -134,14 +139,14 @@ func exploreOne(prog *Program, spec feSpec, multi bool, workers int, noRef bool)
 		res.err = fmt.Errorf("%s: no start state for multi=%v", res.name, multi)
 		return res
 	}
-	res.dis, res.undec = Explore(m, keep, multi, &res.stats, workers, noRef)
+	res.dis, res.undec = Explore(m, keep, multi, &res.stats, workers, noRef, noEvents...)
 	res.undec = append(res.undec, m.in.undecided...)
 	res.classes = len(m.in.cls.list)
 	return res
 }
 
 // exploreFrontEnds runs the explorations concurrently.
-func exploreFrontEnds(prog *Program, specs []feSpec, modes []bool, noRef bool) []feResult {
+func exploreFrontEnds(prog *Program, specs []feSpec, modes []bool, noRef bool, superset ...bool) []feResult {
 	type job struct {
 		spec  feSpec
 		multi bool
@@ -167,8 +172,9 @@ func exploreFrontEnds(prog *Program, specs []feSpec, modes []bool, noRef bool) [
 					out[i].err = fmt.Errorf("%s.%s: checker panic: %v", j.spec.rel, j.spec.typ, r)
 				}
 			}()
-			out[i] = exploreOne(prog, j.spec, j.multi, workers, noRef)
+			out[i] = exploreOne(prog, j.spec, j.multi, workers, noRef, superset...)
 			out[i].noRef = noRef
+			out[i].superset = len(superset) > 0 && superset[0]
 		}(i, j)
 	}
 	wg.Wait()
@@ -177,6 +183,7 @@ func exploreFrontEnds(prog *Program, specs []feSpec, modes []bool, noRef bool) [
 
 // kinds of disagreement decided by each property.
 var (
+	kindsSuperset = map[string]bool{"rejects-live": true, "eof-reject": true, "stack-desync": true, "panic": true, "no-progress": true, "early-return": true}
 	kindsAccept   = map[string]bool{"accepts-dead": true, "rejects-live": true, "eof-accept": true, "eof-reject": true, "early-return": true, "stack-desync": true}
 	kindsEvents   = map[string]bool{"event-desync": true}
 	kindsPanic    = map[string]bool{"panic": true, "no-arm": true, "no-progress": true}
@@ -331,14 +338,17 @@ func ruleC03(prog *Program, rep *Report) {
 	rep.Rules = append(rep.Rules,
 		"A-agree: each JSON front-end (oj.Parser, oj.Validator, oj.Tokenizer, gen.Parser) agrees with the common reference as an acceptor (single- and multi-document mode) and as an event source (value/token events emitted at the same byte, same kind); agreement with one reference implies pairwise agreement",
 		"A-chunk: a buffer refill is allowed between any two bytes of the exploration and every fast path guarded by the remaining buffer length is explored both taken and not taken, so agreement holds for every chunking",
+		"A-subset: sen.Parser and sen.Tokenizer, explored in product with the RFC 8259 reference but compared as a superset: wherever the reference continues the SEN front-end continues (no rejects-live), wherever the reference accepts at end of input the SEN front-end does (no eof-reject), containers open and close in lock-step while the input is JSON (no stack-desync), and no JSON prefix drives them into a panic or an endless re-dispatch; bytes only SEN accepts are not followed. For sen.Parser the kind of the top of the build stack (pending key / object being filled / other) is tracked, because its helpers choose key-or-value from it",
 		"A-noarm: in sen.Parser and sen.Tokenizer explored alone, every action code a reachable (mode, byte) cell holds has a case in the dispatch switch (a missing case silently skips the byte in one sibling only)")
 	rep.Explain(engineAExplanation)
-	rep.Explain("C03 decides agreement of the strict-JSON front-ends as acceptors and event sources under every chunking, in single- and multi-document mode (the multi-document reference is: a sequence of JSON values optionally separated by whitespace; a top-level number ends at whitespace or end of input), and the structural part of sen.Parser/sen.Tokenizer agreement (no silently skipped action code). Not covered: equality of the value trees (values are Top in the abstract domain), alt.Builder reconstruction, Simplify, and JSON-subset-of-SEN acceptance (the SEN helpers' mode depends on the build stack, which the domain does not model).")
+	rep.Explain("C03 decides agreement of the strict-JSON front-ends as acceptors and event sources under every chunking, in single- and multi-document mode (the multi-document reference is: a sequence of JSON values optionally separated by whitespace; a top-level number ends at whitespace or end of input), and the structural part of sen.Parser/sen.Tokenizer agreement (no silently skipped action code). Not covered: equality of the value trees (values are Top in the abstract domain), alt.Builder reconstruction, Simplify, and equality of the SEN and JSON trees for a JSON text (A-subset decides acceptance and container structure only).")
 	rep.Assumptions = append(rep.Assumptions, "Go semantics of the interpreted statement forms", "callbacks and handler methods do not modify the parser", "a type switch over a call result lists every dynamic type the callee returns")
 	results := exploreFrontEnds(prog, jsonFrontEnds, []bool{false, true}, false)
 	applyParseResults(rep, results, union(kindsAccept, kindsEvents, kindsPanic, map[string]bool{"stale-scratch": true}), "A-agree", 18)
 	sres := exploreFrontEnds(prog, senFrontEnds, []bool{false, true}, true)
 	applyParseResults(rep, sres, map[string]bool{"no-arm": true}, "A-noarm", 12)
+	ssup := exploreFrontEnds(prog, senFrontEnds, []bool{false, true}, false, true)
+	applyParseResults(rep, ssup, kindsSuperset, "A-subset", 12)
 	ruleSENFollow(prog, rep)
 	ruleReaderLoops(prog, rep)
 	ruleEntryParity(prog, rep) // the []byte and the reader entry must start from the same state
